@@ -228,6 +228,10 @@ def pipeline(ctx, pid, extra_classes=()):
     for h in rows:
         for line in h.get("mon") or []:
             c = mon_class(line)
+            if line.startswith("processor blocked"):
+                # a handler that never returns stalls the processor's only goroutine: nothing is published (C02), retried or
+                # expired (C14) any more and the node stops processing inputs (C13)
+                c = pid if pid in ("C02", "C13", "C14") else "C13"
             if c is None:
                 ctx.problem("machinery", line, "history %s (%s)" % (h["id"], h.get("shape")))
                 continue
